@@ -302,7 +302,11 @@ func tryReplay(eng *Engine, o *Obligation, tmp string) (bool, map[string]interfa
 	mj, _ := json.Marshal(map[string]interface{}{"obligation": o.Name, "model": model})
 	src := strings.ReplaceAll(string(data), "__MODEL_JSON__", "`"+strings.ReplaceAll(string(mj), "`", "'")+"`")
 	src = strings.ReplaceAll(src, "__OBLIGATION__", "`"+strings.ReplaceAll(o.Name, "`", "'")+"`")
-	ok, out := runReplayTest(eng, u.contract.Pkg, src, tmp)
+	rpkg := u.contract.Pkg
+	if u.contract.ReplayPkg != "" {
+		rpkg = u.contract.ReplayPkg
+	}
+	ok, out := runReplayTest(eng, rpkg, src, tmp)
 	info["test_output"] = trunc2(out, 3000)
 	info["template"] = u.contract.Replay
 	info["confirmed_on_real_code"] = ok
